@@ -505,7 +505,13 @@ namespace
         for (const auto [key, child] : d.items())
         {
             const Int k = key.checked_as<Int>();
-            items.push_back({{0, k}, std::to_string(k) + "=" + value_of_element(child, nested)});
+            std::string dbg;
+            if (std::getenv("HGV_DEBUG_ELEM"))
+            {
+                dbg = "@lm" + std::to_string(us(child.data_view().last_modified_time())) +
+                      (child.data_view().valid() ? "dv" : "di") + (child.modified() ? "m" : "");
+            }
+            items.push_back({{0, k}, std::to_string(k) + "=" + value_of_element(child, nested) + dbg});
         }
         return "{" + join_sorted(std::move(items)) + "}";
     }
